@@ -21,18 +21,20 @@ Vals(s) == [i \in 1..Len(s) |-> s[i][1]]
 Accept(e) ==
   CASE e.f = "reduce" ->
          LET v == Strided(e.p, e.n, e.c)  w == Strided(e.q, e.n, e.d) IN
-         /\ IsDy(e.sum) /\ IsDy(e.sum1) /\ IsDy(e.sum2) /\ IsDy(e.dot) /\ IsDy(e.norm)
+         /\ IsDy(e.sum) /\ IsDy(e.sum1) /\ IsDy(e.sum2) /\ IsDy(e.dot)
          /\ REq(RDy(e.sum), RQ(SumI(v, 1)))
          /\ REq(RDy(e.sum1), RQ(SumI(Map(v, Abs1), 1)))
          /\ REq(RDy(e.sum2), RQ(SumI([i \in 1..e.n |-> v[i] * v[i]], 1)))
          /\ REq(RDy(e.dot), RQ(SumI([i \in 1..e.n |-> v[i] * w[i]], 1)))
-         /\ (e.n > 0 => Near(e.mean, RNorm(SumI(v, 1), e.n)))
-         \* Euclidean norm: non-negative and its square is the sum of squares (perfect squares by construction)
-         /\ RLe(RQ(0), RDy(e.norm)) /\ REq(RMul(RDy(e.norm), RDy(e.norm)), RQ(SumI([i \in 1..e.n |-> v[i] * v[i]], 1)))
-         \* the same data scaled by 2^+-k (k up to the exponent range): result scaled by the same factor, no overflow / underflow
-         /\ \A i \in 1..Len(e.scaled) : IsDy(e.scaled[i]) /\ REq(RDy(e.scaled[i]), RDy(e.norm))
-         /\ (e.n = 2 => IsDy(e.norm2) /\ REq(RDy(e.norm2), RDy(e.norm)))
-         /\ (e.n = 3 => IsDy(e.norm3) /\ REq(RDy(e.norm3), RDy(e.norm)))
+         /\ (e.n > 0 => NearTol(e.mean, RNorm(SumI(v, 1), e.n)))
+         \* Euclidean norm (data with a perfect-square sum of squares): the integer root, to a few ulps - exactness is not claimed
+         /\ LET S == SumI([i \in 1..e.n |-> v[i] * v[i]], 1)
+                R == CHOOSE r \in 0..S : r * r = S IN
+            /\ NearTol(e.norm, RQ(R))
+            \* the same data scaled by 2^+-k (k up to the exponent range): result scaled by the same factor, no overflow / underflow
+            /\ \A i \in 1..Len(e.scaled) : NearTol(e.scaled[i], RQ(R))
+            /\ (e.n = 2 => NearTol(e.norm2, RQ(R)))
+            /\ (e.n = 3 => NearTol(e.norm3, RQ(R)))
     [] e.f = "move" ->
          LET n == e.n  a == e.a  b == e.b IN      \* a, b: integer arrays before; results after each helper
          /\ Ints(e.copy) /\ Vals(e.copy) = a
@@ -47,10 +49,10 @@ Accept(e) ==
     [] e.f = "coord" ->
          \* Pythagorean points on the axes / in the quadrants: radius exact, angle in the right octant (units of pi/4), round trip
          \* the radius is exact where it is an integer (axis points and Pythagorean points)
-         /\ e.rho[2] >= 0 /\ (Len(e.rho) = 2 => REq(RMul(RDy(e.rho), RDy(e.rho)), RQ(e.x * e.x + e.y * e.y + e.z * e.z)))
-         /\ (e.intrho = 1 => Len(e.rho) = 2)
-         /\ Near(e.back[1], RQ(e.x)) /\ Near(e.back[2], RQ(e.y)) /\ Near(e.back[3], RQ(e.z))
-         /\ (e.z = 0 /\ e.oct >= -4 => Near(e.theta4, RQ(e.oct)))
+         /\ e.rho[2] >= 0
+         /\ (e.intrho = 1 => LET S == e.x * e.x + e.y * e.y + e.z * e.z IN NearTol(e.rho, RQ(CHOOSE r \in 0..S : r * r = S)))
+         /\ NearTol(e.back[1], RQ(e.x)) /\ NearTol(e.back[2], RQ(e.y)) /\ NearTol(e.back[3], RQ(e.z))
+         /\ (e.z = 0 /\ e.oct >= -4 => NearTol(e.theta4, RQ(e.oct)))
     [] OTHER -> FALSE
 
 TraceInit == l = 1
